@@ -144,10 +144,15 @@ def server_part(ctx):
         # an unlisted client fetches everything first, so that cached answers exist when the cache is on
         warm = [('127.0.0.77', None, t) for t in ('/f', '/d/x.txt')]
         allr = warm + reqs
-        lines.append('srv %s %s %s' % (hx(conf), fixtures, ','.join('%s:%s:%s:%s' % (hx('x'), hx(t), hx(p), hx(x) if x else '-') for p, x, t in allr)))
+        toks = set(lst) | {e.strip() for _, x, _ in allr if x for e in x.split(',')}
+        ipmap = ','.join('%s=%s' % (hx(t), hx(canon6(t))) for t in sorted(toks) if canon6(t))
+        lines.append('srv %s %s %s %s' % (hx(conf), fixtures, ','.join('%s:%s:%s:%s' % (hx('x'), hx(t), hx(p), hx(x) if x else '-') for p, x, t in allr),
+                                          ipmap or '-'))
         meta.append((mode, lst, allr))
     im = ctx.impl(lines)
     ctx.evaluations += len(lines)
+    from props import srvmodel
+    srvmodel.compare(ctx, lines, im, 'bl-server', 'blacklist through the config-driven server')
     for line, me, b in zip(lines, meta, im):
         ctx.count('kind:server-e2e')
         if me is None:
